@@ -129,7 +129,22 @@ func c06detGen(r *Rng, maxDim int) c06detImg {
 	}
 	class := ""
 	var m *gozxing.BitMatrix
-	switch r.Intn(12) {
+	switch r.Intn(14) {
+	case 12, 13: // island: content of some density inside a white margin (what WhiteRectangleDetector is made for)
+		m = c06detNew(w, h)
+		mx, my := r.Range(1, 1+w/3), r.Range(1, 1+h/3)
+		p := []float64{0.2, 0.5, 0.8, 1.0}[r.Intn(4)]
+		for y := my; y < h-my; y++ {
+			for x := mx; x < w-mx; x++ {
+				if r.Chance(p) {
+					m.Set(x, y)
+				}
+			}
+		}
+		if r.Chance(0.2) {
+			c06detNoise(r, m, r.Pick([]int{1, 3}))
+		}
+		class = "island"
 	case 0: // random, several densities
 		m = c06detNew(w, h)
 		p := []float64{0.02, 0.1, 0.3, 0.5, 0.7, 0.9, 0.98}[r.Intn(7)]
